@@ -251,6 +251,7 @@ func (e *sysEnv) runHashController(c *kit.Ctx, claimNames []string) {
 	np := &v1.NodePool{ObjectMeta: metav1.ObjectMeta{Name: e.np.Name}}
 	e.get(np)
 	before := annTerm(np.Annotations)
+	verBefore := np.Annotations[v1.NodePoolHashVersionAnnotationKey]
 	var cb, jb []string
 	for _, n := range claimNames {
 		nc := &v1.NodeClaim{ObjectMeta: metav1.ObjectMeta{Name: n}}
@@ -271,7 +272,7 @@ func (e *sysEnv) runHashController(c *kit.Ctx, claimNames []string) {
 		ca = append(ca, claimAnnTerm(nc))
 		ja = append(ja, fmt.Sprintf("%s:%v", n, nc.Annotations))
 	}
-	c.Count("hashctl:claims=" + fmt.Sprint(len(claimNames)))
+	c.Count("hashctl:claims=" + fmt.Sprint(len(claimNames)) + ",pool-version-before=" + verBefore)
 	c.AddCase(fmt.Sprintf("CaseHashCtl %s %s %s %s %s", cons.str(h), before, kit.GList(cb), annTerm(np.Annotations), kit.GList(ca)),
 		hashCtlJSON{Kind: "hash-controller", Hash: h, Before: append([]string{before}, jb...), After: append([]string{fmt.Sprint(np.Annotations)}, ja...)}, "")
 }
@@ -456,6 +457,15 @@ func runSys(c *kit.Ctx, r *kit.Rand, plan sysPlan) {
 	for _, req := range ch.o.Requirements {
 		provL[req.Key] = req.Any()
 	}
+	// a provider may also answer with its own value for a key the claim already labels: the claim's value wins
+	if r.Chance(1, 3) {
+		for _, k := range kit.SortedKeys(nc.Labels) {
+			if r.Chance(1, 2) {
+				provL[k] = "from-provider"
+				c.Count("sys:provider-label-conflicts-with-claim-label")
+			}
+		}
+	}
 	echo := r.Chance(1, 2)
 	created := &v1.NodeClaim{ObjectMeta: metav1.ObjectMeta{Name: nc.Name, Labels: map[string]string{}, Annotations: nc.Annotations}}
 	for k, v := range provL {
@@ -529,6 +539,12 @@ func runSys(c *kit.Ctx, r *kit.Rand, plan sysPlan) {
 		pj.Steps = append(pj.Steps, stepJSON{Edit: edit, PoolReqs: append([]kcall{}, curReqs...), PoolAnn: pool.Annotations, ClaimAnn: cur.Annotations, Launched: launched,
 			AgeS: int64(age / time.Second), Catalogue: catJSON, Provider: provJSON, Observed: obsJSON})
 		c.Count("step:" + edit + "=>" + obsJSON)
+		bucket := "age<=1h"
+		if age > time.Hour {
+			bucket = "age>1h"
+		}
+		c.Count(fmt.Sprintf("drift-branch:launched=%v,%s,catalogue=%s,provider=%s=>%s", launched, bucket, map[bool]string{true: "ok", false: "error"}[itErr == nil],
+			map[bool]string{true: "error", false: provJSON}[e.cp.driftErr != nil], obsJSON))
 	}
 	updatePool := func(f func(np *v1.NodePool)) {
 		pool := &v1.NodePool{ObjectMeta: metav1.ObjectMeta{Name: "pool"}}
@@ -714,10 +730,12 @@ func runSys(c *kit.Ctx, r *kit.Rand, plan sysPlan) {
 			}
 		}
 		e.cp.InstanceTypes = out
+		age := kit.Pick(r, ages)
 		if r.Chance(1, 6) {
 			e.cp.itErr = fmt.Errorf("injected: GetInstanceTypes failed")
+			age = kit.Pick(r, ages[2:])
 		}
-		step(fmt.Sprintf("catalogue-%d", which), kit.Pick(r, ages), false)
+		step(fmt.Sprintf("catalogue-%d", which), age, false)
 	case "provider":
 		if r.Chance(1, 3) {
 			e.cp.driftErr = fmt.Errorf("injected: IsDrifted failed")
@@ -868,7 +886,7 @@ func runSystem(c *kit.Ctx) int {
 	initNoResolve()
 	n := 420
 	if c.Thorough() {
-		n = 7000
+		n = 3000
 	}
 	// corpus: F10's shape, a template label contradicting a requirement, an empty-string value
 	corpus := []sysPlan{
